@@ -20,54 +20,30 @@ impl CryptographicBuiltin {
     self.crypto_handle_counter
   }
 
-  fn get_or_generate_matched_remote_endpoint_crypto_handle(
+  // Every registration of a matched remote endpoint gets a handle of its own:
+  // one remote participant may well have several endpoints matched to the same
+  // local endpoint, and each of them has its own key materials.
+  fn generate_matched_remote_endpoint_crypto_handle(
     &mut self,
     remote_participant_crypto_handle: ParticipantCryptoHandle,
     local_endpoint_crypto_handle: EndpointCryptoHandle,
   ) -> EndpointCryptoHandle {
-    // If a corresponding handle exists, get and return
-    if let Some(remote_endpoint_crypto_handle) = self
-      .matched_remote_endpoint
-      .get(&local_endpoint_crypto_handle)
-      .and_then(|remote_participant_to_remote_endpoint| {
-        remote_participant_to_remote_endpoint.get(&remote_participant_crypto_handle)
-      })
-    {
-      *remote_endpoint_crypto_handle
-    } else {
-      // Otherwise generate a new handle
-      let remote_endpoint_crypto_handle = self.generate_crypto_handle();
-      // Associate it with the remote participant
-      self.endpoint_to_participant.insert(
-        remote_endpoint_crypto_handle,
-        remote_participant_crypto_handle,
-      );
-      // Associate it with the local endpoint
-      self
-        .matched_local_endpoint
-        .insert(remote_endpoint_crypto_handle, local_endpoint_crypto_handle);
-      // Insert it to the HashMap corresponding to the local endpoint
-      if let Some(remote_participant_to_remote_endpoint) = self
-        .matched_remote_endpoint
-        .get_mut(&local_endpoint_crypto_handle)
-      {
-        remote_participant_to_remote_endpoint.insert(
-          remote_participant_crypto_handle,
-          remote_endpoint_crypto_handle,
-        );
-      } else {
-        // Create a new HashMap if one does not yet exist
-        self.matched_remote_endpoint.insert(
-          local_endpoint_crypto_handle,
-          HashMap::from([(
-            remote_participant_crypto_handle,
-            remote_endpoint_crypto_handle,
-          )]),
-        );
-      }
-      // Return the generated handle
-      remote_endpoint_crypto_handle
-    }
+    let remote_endpoint_crypto_handle = self.generate_crypto_handle();
+    // Associate it with the remote participant
+    self.endpoint_to_participant.insert(
+      remote_endpoint_crypto_handle,
+      remote_participant_crypto_handle,
+    );
+    // Associate it with the local endpoint
+    self
+      .matched_local_endpoint
+      .insert(remote_endpoint_crypto_handle, local_endpoint_crypto_handle);
+    self
+      .matched_remote_endpoints
+      .entry(local_endpoint_crypto_handle)
+      .or_default()
+      .insert(remote_endpoint_crypto_handle);
+    remote_endpoint_crypto_handle
   }
 
   fn is_volatile(properties: &[Property]) -> bool {
@@ -246,21 +222,21 @@ impl CryptographicBuiltin {
       if let Some(matched_local_endpoint_crypto_handle) =
         self.matched_local_endpoint.remove(&endpoint_crypto_handle)
       {
-        if let Some(remote_participant_to_remote_endpoint) = self
-          .matched_remote_endpoint
+        if let Some(remote_endpoints) = self
+          .matched_remote_endpoints
           .get_mut(&matched_local_endpoint_crypto_handle)
         {
-          remote_participant_to_remote_endpoint.remove(&participant_crypto_handle);
+          remote_endpoints.remove(&endpoint_crypto_handle);
         }
       }
       // If the endpoint is local, unregister all associated remote entities as they serve no
       // purpose on their own. TODO: should we do this or just sever the association?
-      else if let Some(remote_participant_to_remote_endpoint) =
-        self.matched_remote_endpoint.remove(&endpoint_crypto_handle)
+      else if let Some(remote_endpoints) =
+        self.matched_remote_endpoints.remove(&endpoint_crypto_handle)
       {
-        for remote_endpoint_crypto_handle in remote_participant_to_remote_endpoint.values() {
+        for remote_endpoint_crypto_handle in remote_endpoints {
           self.unregister_endpoint(EndpointInfo {
-            crypto_handle: *remote_endpoint_crypto_handle,
+            crypto_handle: remote_endpoint_crypto_handle,
             kind: endpoint_info.kind.opposite(),
           });
         }
@@ -439,10 +415,10 @@ impl CryptoKeyFactory for CryptographicBuiltin {
       .get_common_encode_key_materials(&local_datawriter_crypto_handle)
       .cloned()?;
 
-    // Find a handle for the remote datareader corresponding to the (remote
-    // participant, local datawriter) pair, or generate a new one
+    // Generate a handle for the remote datareader and associate it with the
+    // remote participant and the local datawriter
     let remote_datareader_crypto_handle = self
-      .get_or_generate_matched_remote_endpoint_crypto_handle(
+      .generate_matched_remote_endpoint_crypto_handle(
         remote_participant_crypto_handle,
         local_datawriter_crypto_handle,
       );
@@ -575,10 +551,10 @@ impl CryptoKeyFactory for CryptographicBuiltin {
       .get_common_encode_key_materials(&local_datareader_crypto_handle)
       .cloned()?;
 
-    // Find a handle for the remote datawriter corresponding to the (remote
-    // participant, local datareader) pair, or generate a new one
+    // Generate a handle for the remote datawriter and associate it with the
+    // remote participant and the local datareader
     let remote_datawriter_crypto_handle: DatareaderCryptoHandle = self
-      .get_or_generate_matched_remote_endpoint_crypto_handle(
+      .generate_matched_remote_endpoint_crypto_handle(
         remote_participant_crypto_handle,
         local_datareader_crypto_handle,
       );
